@@ -181,7 +181,9 @@ def strat_tif(tier):
     return st.fixed_dictionaries({
         "shape": st.tuples(st.integers(2, 20), st.integers(2, 20)).map(list), "spacing": _spacing, "seed": st.integers(0, 2 ** 31 - 1),
         "lo": st.sampled_from([0.0, -2.0, 100.0]), "span": st.sampled_from([1.0, 0.01, 255.0]), "name": st.sampled_from([None, "holo", "my image"]),
-        "channels": st.sampled_from([None, None, ["red", "green", "blue"]]),
+        # colour images: all three channels or any two of them in any order (the exporter pads the missing colour)
+        "channels": st.sampled_from([None, None, ["red", "green", "blue"], ["red", "green"], ["green", "red"], ["red", "blue"], ["blue", "red"],
+                                     ["green", "blue"], ["blue", "green"], ["blue", "green", "red"]]),
         "meta": _meta(), "how": st.sampled_from(["hp.save", "save_image8", "save_image16", "save_image_float"]),
         # explicit (min, max) scaling interval for save_image, wider than the data by these fractions of its range
         "scaling": st.one_of(st.none(), st.none(), st.tuples(st.floats(0.0, 2.0), st.floats(0.0, 2.0)).map(list)),
@@ -235,6 +237,9 @@ def run_tif(case):
     a = im.transpose(*[d for d in ("z", "x", "y", "illumination") if d in im.dims]).values
     try:
         if case["channels"]:
+            got_ch = [str(c) for c in back.illumination.values] if "illumination" in back.dims else []
+            if sorted(got_ch) != sorted(case["channels"]):
+                return Outcome(failure("tiff_channels", "image with channels %r reloads with channels %r" % (case["channels"], got_ch)), True, labels)
             back = back.sel(illumination=case["channels"])
         b = back.transpose(*[d for d in ("z", "x", "y", "illumination") if d in back.dims]).values
     except Exception as e:
